@@ -151,8 +151,34 @@ func c02Lex(space string) engine.RunFunc {
 				switch t {
 				case html.StartTagToken, html.EndTagToken:
 					if a, b, ok := subRange(arr, s.htmlL.Text()); ok {
+						// Text() of an end tag runs to the '>': the tag name and whatever stands where attribute names
+						// would stand are names, attribute values are not
+						inValue, quote, inTagName := false, byte(0), true
 						for i := a; i < b; i++ {
-							lowerOK[i] = true
+							ch := P[i]
+							if inTagName && (isWS(ch) || ch == '/') {
+								inTagName = false
+							}
+							switch {
+							case t != html.EndTagToken || inTagName:
+								lowerOK[i] = true
+							case quote != 0:
+								if ch == quote {
+									quote, inValue = 0, false
+								}
+							case inValue:
+								if ch == '"' || ch == '\'' {
+									if i > a && (P[i-1] == '=' || isWS(P[i-1])) {
+										quote = ch
+									}
+								} else if isWS(ch) && i > a && P[i-1] != '=' && !isWS(P[i-1]) {
+									inValue = false
+								}
+							case ch == '=' && i > a && !isWS(P[i-1]) && P[i-1] != '/':
+								inValue = true
+							default:
+								lowerOK[i] = true // incl. a '=' where a name starts, which HTML reads as part of the name
+							}
 						}
 					}
 				case html.AttributeToken:
